@@ -237,15 +237,29 @@ impl SerializeStruct for TapeSer {
 // ------------------------------------------------------------------------------------------
 // replaying deserializer
 
+const ENTRY_POINTS: [&str; 29] = [
+    "any", "ignored_any", "option", "bool", "i8", "i16", "i32", "i64", "u8", "u16", "u32", "u64", "f32", "f64", "char", "str", "string", "bytes", "byte_buf", "unit", "unit_struct",
+    "newtype_struct", "seq", "tuple", "tuple_struct", "map", "struct", "enum", "identifier",
+];
+
 pub struct TapeDe<'t> {
     toks: &'t [Tok],
     pos: &'t Cell<usize>,
     calls: &'t Cell<u32>,
     fail_at: u32,
+    /// names of the Deserializer entry points used, in order (transparency of the call sequence)
+    log: &'t Cell<u32>,
+    /// a format that is not self-describing: `deserialize_any`/`deserialize_ignored_any` are
+    /// refused, only the typed entry points work
+    strict: bool,
 }
 impl<'t> TapeDe<'t> {
     fn sub(&self) -> TapeDe<'t> {
-        TapeDe { toks: self.toks, pos: self.pos, calls: self.calls, fail_at: self.fail_at }
+        TapeDe { toks: self.toks, pos: self.pos, calls: self.calls, fail_at: self.fail_at, log: self.log, strict: self.strict }
+    }
+    fn note(&self, name: &'static str) {
+        let ix = ENTRY_POINTS.iter().position(|n| *n == name).expect("entry point name");
+        self.log.set(self.log.get() | 1 << ix);
     }
     fn step(&self) -> Result<(), TapeError> {
         let c = self.calls.get() + 1;
@@ -262,6 +276,28 @@ impl<'t> TapeDe<'t> {
         let t = self.toks.get(self.pos.get()).ok_or(TapeError::Custom("end of tape".into()))?;
         self.pos.set(self.pos.get() + 1);
         Ok(t)
+    }
+}
+
+impl<'t> TapeDe<'t> {
+    fn any_inner<'de, V: Visitor<'de>>(self, v: V) -> Result<V::Value, TapeError> {
+        self.step()?;
+        match self.next()? {
+            Tok::Bool(b) => v.visit_bool(*b),
+            Tok::U8(x) => v.visit_u8(*x),
+            Tok::U32(x) => v.visit_u32(*x),
+            Tok::U64(x) => v.visit_u64(*x),
+            Tok::I64(x) => v.visit_i64(*x),
+            Tok::Str(s) => v.visit_str(s),
+            Tok::None => v.visit_none(),
+            Tok::Some => v.visit_some(self.sub()),
+            Tok::Unit => v.visit_unit(),
+            Tok::SeqBegin(_) => v.visit_seq(TapeSeq { de: self.sub(), end: Tok::SeqEnd }),
+            Tok::TupleBegin(_) => v.visit_seq(TapeSeq { de: self.sub(), end: Tok::TupleEnd }),
+            Tok::MapBegin(_) => v.visit_map(TapeMap { de: self.sub(), end: Tok::MapEnd }),
+            Tok::StructBegin(..) => v.visit_map(TapeMap { de: self.sub(), end: Tok::StructEnd }),
+            t => Err(TapeError::Custom(format!("unexpected token {:?}", t))),
+        }
     }
 }
 
@@ -309,25 +345,21 @@ impl<'de, 't> MapAccess<'de> for TapeMap<'t> {
 impl<'de, 't> Deserializer<'de> for TapeDe<'t> {
     type Error = TapeError;
     fn deserialize_any<V: Visitor<'de>>(self, v: V) -> Result<V::Value, TapeError> {
-        self.step()?;
-        match self.next()? {
-            Tok::Bool(b) => v.visit_bool(*b),
-            Tok::U8(x) => v.visit_u8(*x),
-            Tok::U32(x) => v.visit_u32(*x),
-            Tok::U64(x) => v.visit_u64(*x),
-            Tok::I64(x) => v.visit_i64(*x),
-            Tok::Str(s) => v.visit_str(s),
-            Tok::None => v.visit_none(),
-            Tok::Some => v.visit_some(self.sub()),
-            Tok::Unit => v.visit_unit(),
-            Tok::SeqBegin(_) => v.visit_seq(TapeSeq { de: self.sub(), end: Tok::SeqEnd }),
-            Tok::TupleBegin(_) => v.visit_seq(TapeSeq { de: self.sub(), end: Tok::TupleEnd }),
-            Tok::MapBegin(_) => v.visit_map(TapeMap { de: self.sub(), end: Tok::MapEnd }),
-            Tok::StructBegin(..) => v.visit_map(TapeMap { de: self.sub(), end: Tok::StructEnd }),
-            t => Err(TapeError::Custom(format!("unexpected token {:?}", t))),
+        self.note("any");
+        if self.strict {
+            return Err(TapeError::Custom("this format is not self-describing: deserialize_any".into()));
         }
+        self.any_inner(v)
+    }
+    fn deserialize_ignored_any<V: Visitor<'de>>(self, v: V) -> Result<V::Value, TapeError> {
+        self.note("ignored_any");
+        if self.strict {
+            return Err(TapeError::Custom("this format is not self-describing: deserialize_ignored_any".into()));
+        }
+        self.any_inner(v)
     }
     fn deserialize_option<V: Visitor<'de>>(self, v: V) -> Result<V::Value, TapeError> {
+        self.note("option");
         self.step()?;
         match self.peek() {
             Some(Tok::None) => {
@@ -341,10 +373,32 @@ impl<'de, 't> Deserializer<'de> for TapeDe<'t> {
             _ => v.visit_some(self.sub()),
         }
     }
-    serde::forward_to_deserialize_any! {
-        bool i8 i16 i32 i64 i128 u8 u16 u32 u64 u128 f32 f64 char str string bytes byte_buf unit unit_struct
-        newtype_struct seq tuple tuple_struct map struct enum identifier ignored_any
-    }
+    fn deserialize_bool<V: Visitor<'de>>(self, v: V) -> Result<V::Value, TapeError> { self.note("bool"); self.any_inner(v) }
+    fn deserialize_i8<V: Visitor<'de>>(self, v: V) -> Result<V::Value, TapeError> { self.note("i8"); self.any_inner(v) }
+    fn deserialize_i16<V: Visitor<'de>>(self, v: V) -> Result<V::Value, TapeError> { self.note("i16"); self.any_inner(v) }
+    fn deserialize_i32<V: Visitor<'de>>(self, v: V) -> Result<V::Value, TapeError> { self.note("i32"); self.any_inner(v) }
+    fn deserialize_i64<V: Visitor<'de>>(self, v: V) -> Result<V::Value, TapeError> { self.note("i64"); self.any_inner(v) }
+    fn deserialize_u8<V: Visitor<'de>>(self, v: V) -> Result<V::Value, TapeError> { self.note("u8"); self.any_inner(v) }
+    fn deserialize_u16<V: Visitor<'de>>(self, v: V) -> Result<V::Value, TapeError> { self.note("u16"); self.any_inner(v) }
+    fn deserialize_u32<V: Visitor<'de>>(self, v: V) -> Result<V::Value, TapeError> { self.note("u32"); self.any_inner(v) }
+    fn deserialize_u64<V: Visitor<'de>>(self, v: V) -> Result<V::Value, TapeError> { self.note("u64"); self.any_inner(v) }
+    fn deserialize_f32<V: Visitor<'de>>(self, v: V) -> Result<V::Value, TapeError> { self.note("f32"); self.any_inner(v) }
+    fn deserialize_f64<V: Visitor<'de>>(self, v: V) -> Result<V::Value, TapeError> { self.note("f64"); self.any_inner(v) }
+    fn deserialize_char<V: Visitor<'de>>(self, v: V) -> Result<V::Value, TapeError> { self.note("char"); self.any_inner(v) }
+    fn deserialize_str<V: Visitor<'de>>(self, v: V) -> Result<V::Value, TapeError> { self.note("str"); self.any_inner(v) }
+    fn deserialize_string<V: Visitor<'de>>(self, v: V) -> Result<V::Value, TapeError> { self.note("string"); self.any_inner(v) }
+    fn deserialize_bytes<V: Visitor<'de>>(self, v: V) -> Result<V::Value, TapeError> { self.note("bytes"); self.any_inner(v) }
+    fn deserialize_byte_buf<V: Visitor<'de>>(self, v: V) -> Result<V::Value, TapeError> { self.note("byte_buf"); self.any_inner(v) }
+    fn deserialize_unit<V: Visitor<'de>>(self, v: V) -> Result<V::Value, TapeError> { self.note("unit"); self.any_inner(v) }
+    fn deserialize_unit_struct<V: Visitor<'de>>(self, _n: &'static str, v: V) -> Result<V::Value, TapeError> { self.note("unit_struct"); self.any_inner(v) }
+    fn deserialize_newtype_struct<V: Visitor<'de>>(self, _n: &'static str, v: V) -> Result<V::Value, TapeError> { self.note("newtype_struct"); self.any_inner(v) }
+    fn deserialize_seq<V: Visitor<'de>>(self, v: V) -> Result<V::Value, TapeError> { self.note("seq"); self.any_inner(v) }
+    fn deserialize_tuple<V: Visitor<'de>>(self, _l: usize, v: V) -> Result<V::Value, TapeError> { self.note("tuple"); self.any_inner(v) }
+    fn deserialize_tuple_struct<V: Visitor<'de>>(self, _n: &'static str, _l: usize, v: V) -> Result<V::Value, TapeError> { self.note("tuple_struct"); self.any_inner(v) }
+    fn deserialize_map<V: Visitor<'de>>(self, v: V) -> Result<V::Value, TapeError> { self.note("map"); self.any_inner(v) }
+    fn deserialize_struct<V: Visitor<'de>>(self, _n: &'static str, _f: &'static [&'static str], v: V) -> Result<V::Value, TapeError> { self.note("struct"); self.any_inner(v) }
+    fn deserialize_enum<V: Visitor<'de>>(self, _n: &'static str, _f: &'static [&'static str], v: V) -> Result<V::Value, TapeError> { self.note("enum"); self.any_inner(v) }
+    fn deserialize_identifier<V: Visitor<'de>>(self, v: V) -> Result<V::Value, TapeError> { self.note("identifier"); self.any_inner(v) }
 }
 
 // ------------------------------------------------------------------------------------------
@@ -475,6 +529,35 @@ impl TestVal for Option<Piece> {
         }
     }
 }
+impl TestVal for () {
+    const NAME: &'static str = "()";
+    fn gen(_r: &mut Rng) -> Self {}
+}
+/// Zero-sized tag whose hand-written impls carry meaning: serialises as "v1", and its
+/// deserialiser accepts nothing else.
+#[derive(Debug, PartialEq)]
+pub struct Tag;
+impl Serialize for Tag {
+    fn serialize<S: Serializer>(&self, s: S) -> Result<S::Ok, S::Error> {
+        s.serialize_str("v1")
+    }
+}
+impl<'de> Deserialize<'de> for Tag {
+    fn deserialize<D: Deserializer<'de>>(d: D) -> Result<Tag, D::Error> {
+        let s = String::deserialize(d)?;
+        if s == "v1" {
+            Ok(Tag)
+        } else {
+            Err(de::Error::custom("unsupported tag"))
+        }
+    }
+}
+impl TestVal for Tag {
+    const NAME: &'static str = "Tag(ZST)";
+    fn gen(_r: &mut Rng) -> Self {
+        Tag
+    }
+}
 impl TestVal for [Piece; 9] {
     const NAME: &'static str = "[Piece;9]";
     fn gen(r: &mut Rng) -> Self {
@@ -518,7 +601,11 @@ pub struct SerdeStats {
     pub de_faults_fired: u64,
     pub fresh_blocks_checked: u64,
     pub value_deserializer_cases: u64,
-    pub by_type: [u64; 8],
+    pub by_type: [u64; 10],
+    pub wrong_input_cases: u64,
+    pub wrong_input_rejected: u64,
+    pub strict_cases: u64,
+    pub entry_points: std::collections::BTreeSet<&'static str>,
     pub distinct: std::collections::HashSet<u64>,
     pub samples: Vec<String>,
 }
@@ -548,9 +635,116 @@ fn ser_with<T: Serialize>(v: &T, k: u32) -> (Vec<Tok>, u32, Result<(), TapeError
     (t, c, r)
 }
 
+/// One comparison of `T`, `Arc<T>` and `UniqueArc<T>` over the same input: same outcome (equal
+/// value in a fresh solely-owned block of the right layout, or the same error), nothing left
+/// behind. Returns whether the value's own deserialiser failed.
+fn de_compare<T: TestVal>(base: &[Tok], k: u32, strict: bool, what: &str, st: &mut SerdeStats) -> bool {
+    let (want_size, want_align, _) = arcinner(std::mem::size_of::<T>(), std::mem::align_of::<T>());
+    let dlog = Cell::new(0u32);
+    let run_t = || {
+        let (pos, calls) = (Cell::new(0), Cell::new(0));
+        T::deserialize(TapeDe { toks: base, pos: &pos, calls: &calls, fail_at: k, log: &dlog, strict })
+    };
+    let rt = run_t();
+    let failed = rt.is_err();
+    let want_err = rt.as_ref().err().cloned();
+    let want_val = rt.ok();
+    // nothing may linger from the plain run
+    drop(want_val);
+    let want_val = run_t().ok();
+    let base_ids = live_ids();
+    let mark = ledger::event_count();
+    let blocks_before = ledger::live_count();
+    // Arc<T>
+    let ra = tracked(|| {
+        let (pos, calls) = (Cell::new(0), Cell::new(0));
+        Arc::<T>::deserialize(TapeDe { toks: base, pos: &pos, calls: &calls, fail_at: k, log: &dlog, strict })
+    });
+    let ru = tracked(|| {
+        let (pos, calls) = (Cell::new(0), Cell::new(0));
+        UniqueArc::<T>::deserialize(TapeDe { toks: base, pos: &pos, calls: &calls, fail_at: k, log: &dlog, strict })
+    });
+    match (&want_val, ra, ru) {
+        (Some(w), Ok(a), Ok(u)) => {
+            if *a != *w || *u != *w {
+                violation("serde:de-differs", format!("deserialising Arc/UniqueArc<{}> gave {:?} / {:?}, the value's own deserialiser {:?}", T::NAME, *a, *u, w));
+            }
+            if Arc::count(&a) != 1 || !a.is_unique() {
+                violation("count-mismatch", format!("a freshly deserialised Arc<{}> reports count {}", T::NAME, Arc::count(&a)));
+            }
+            // fresh blocks of the right layout, allocated during the call
+            let hp = a.heap_ptr() as usize;
+            let b = match ledger::lookup(hp) {
+                Some(b) => b,
+                None => violation("serde:not-fresh", format!("a deserialised Arc<{}> does not live in a block allocated during the call", T::NAME)),
+            };
+            let mut fresh = false;
+            for i in mark..ledger::event_count() {
+                let e = ledger::event_at(i);
+                if e.kind == ledger::EV_ALLOC && e.block == b.id {
+                    fresh = true;
+                }
+            }
+            if !fresh {
+                violation("serde:not-fresh", format!("a deserialised Arc<{}> reuses an allocation that existed before the call", T::NAME));
+            }
+            if b.size != want_size || b.align != want_align {
+                violation("layout:alloc", format!("deserialised Arc<{}>: block size {} align {}, counter+payload need size {} align {}", T::NAME, b.size, b.align, want_size, want_align));
+            }
+            // a second deserialisation is another allocation
+            let a2 = tracked(|| {
+                let (pos, calls) = (Cell::new(0), Cell::new(0));
+                Arc::<T>::deserialize(TapeDe { toks: base, pos: &pos, calls: &calls, fail_at: 0, log: &dlog, strict })
+            });
+            if let Ok(a2) = &a2 {
+                if Arc::ptr_eq(&a, a2) || Arc::count(&a) != 1 {
+                    violation("serde:not-fresh", format!("two deserialisations of Arc<{}> share an allocation", T::NAME));
+                }
+            }
+            st.fresh_blocks_checked += 1;
+            tracked(|| {
+                drop(a2);
+                drop(a);
+                drop(u);
+            });
+        }
+        (None, Err(ea), Err(eu)) => {
+            let w = want_err.clone().unwrap();
+            if ea != w || eu != w {
+                violation("serde:error-changed", format!("deserialising Arc/UniqueArc<{}> ({}) failed with {:?} / {:?}, the value's own deserialiser with {:?}", T::NAME, what, ea, eu, w));
+            }
+        }
+        (w, ra, ru) => {
+            violation(
+                "serde:de-differs",
+                format!("deserialising {} ({}, fault at call {}): value ok={}, Arc ok={}, UniqueArc ok={}", T::NAME, what, k, w.is_some(), ra.is_ok(), ru.is_ok()),
+            );
+        }
+    }
+    if ledger::live_count() != blocks_before {
+        violation(
+            "leak:block",
+            format!("deserialising Arc/UniqueArc<{}> ({}, fault at call {}) left {} block(s) behind", T::NAME, what, k, ledger::live_count() as i64 - blocks_before as i64),
+        );
+    }
+    if live_ids() != base_ids {
+        violation(
+            "leak:identity",
+            format!("deserialising Arc/UniqueArc<{}> ({}, fault at call {}): {} piece(s) built by the partial value were not destroyed", T::NAME, what, k, live_ids() as i64 - base_ids as i64),
+        );
+    }
+    drop(want_val);
+    for (i, e) in ENTRY_POINTS.iter().enumerate() {
+        if dlog.get() >> i & 1 == 1 {
+            st.entry_points.insert(*e);
+        }
+    }
+    failed
+}
+
 fn check_type<T: TestVal>(seed: u64, only_k: Option<(bool, u32)>, st: &mut SerdeStats, ctx: &dyn Fn(&str)) {
     reset_registry();
-    let ix = ["u32", "String", "(u8,String)", "Vec<Piece>", "Option<Piece>", "Nested", "[Piece;9]", "(Nested,String,u64)"].iter().position(|n| *n == T::NAME).unwrap();
+    let ix = ["u32", "String", "(u8,String)", "Vec<Piece>", "Option<Piece>", "Nested", "[Piece;9]", "(Nested,String,u64)", "()", "Tag(ZST)"].iter().position(|n| *n == T::NAME).unwrap();
     st.by_type[ix] += 1;
     st.values += 1;
     let make = || T::gen(&mut Rng::new(seed));
@@ -608,7 +802,7 @@ fn check_type<T: TestVal>(seed: u64, only_k: Option<(bool, u32)>, st: &mut Serde
     // ---- deserialisation from the tape
     let dcalls = {
         let (pos, calls) = (Cell::new(0), Cell::new(0));
-        let r = T::deserialize(TapeDe { toks: &base, pos: &pos, calls: &calls, fail_at: 0 });
+        let r = T::deserialize(TapeDe { toks: &base, pos: &pos, calls: &calls, fail_at: 0, log: &Cell::new(0), strict: false });
         match r {
             Ok(v) => {
                 let again = make();
@@ -625,106 +819,46 @@ fn check_type<T: TestVal>(seed: u64, only_k: Option<(bool, u32)>, st: &mut Serde
         Some((true, _)) => vec![],
         None => (0..=dcalls + 1).collect(),
     };
-    let (want_size, want_align, _) = arcinner(std::mem::size_of::<T>(), std::mem::align_of::<T>());
     for k in ks {
         ctx(&format!("de {}", k));
         st.evaluations += 1;
         st.de_fault_points += 1;
-        let run_t = || {
-            let (pos, calls) = (Cell::new(0), Cell::new(0));
-            T::deserialize(TapeDe { toks: &base, pos: &pos, calls: &calls, fail_at: k })
-        };
-        let rt = run_t();
-        if rt.is_err() {
+        if de_compare::<T>(&base, k, false, "the value's own tape", st) {
             st.de_faults_fired += 1;
         }
-        let want_err = rt.as_ref().err().cloned();
-        let want_val = rt.ok();
-        // nothing may linger from the plain run
-        drop(want_val);
-        let want_val = run_t().ok();
-        let base_ids = live_ids();
-        let mark = ledger::event_count();
-        let blocks_before = ledger::live_count();
-        // Arc<T>
-        let ra = tracked(|| {
+    }
+    if only_k.is_none() {
+        // the same tape through a format that is not self-describing (typed entry points only)
+        ctx("de strict");
+        let ok_strict = {
             let (pos, calls) = (Cell::new(0), Cell::new(0));
-            Arc::<T>::deserialize(TapeDe { toks: &base, pos: &pos, calls: &calls, fail_at: k })
-        });
-        let ru = tracked(|| {
-            let (pos, calls) = (Cell::new(0), Cell::new(0));
-            UniqueArc::<T>::deserialize(TapeDe { toks: &base, pos: &pos, calls: &calls, fail_at: k })
-        });
-        match (&want_val, ra, ru) {
-            (Some(w), Ok(a), Ok(u)) => {
-                if *a != *w || *u != *w {
-                    violation("serde:de-differs", format!("deserialising Arc/UniqueArc<{}> gave {:?} / {:?}, the value's own deserialiser {:?}", T::NAME, *a, *u, w));
-                }
-                if Arc::count(&a) != 1 || !a.is_unique() {
-                    violation("count-mismatch", format!("a freshly deserialised Arc<{}> reports count {}", T::NAME, Arc::count(&a)));
-                }
-                // fresh blocks of the right layout, allocated during the call
-                let hp = a.heap_ptr() as usize;
-                let b = match ledger::lookup(hp) {
-                    Some(b) => b,
-                    None => violation("serde:not-fresh", format!("a deserialised Arc<{}> does not live in a block allocated during the call", T::NAME)),
-                };
-                let mut fresh = false;
-                for i in mark..ledger::event_count() {
-                    let e = ledger::event_at(i);
-                    if e.kind == ledger::EV_ALLOC && e.block == b.id {
-                        fresh = true;
-                    }
-                }
-                if !fresh {
-                    violation("serde:not-fresh", format!("a deserialised Arc<{}> reuses an allocation that existed before the call", T::NAME));
-                }
-                if b.size != want_size || b.align != want_align {
-                    violation("layout:alloc", format!("deserialised Arc<{}>: block size {} align {}, counter+payload need size {} align {}", T::NAME, b.size, b.align, want_size, want_align));
-                }
-                // a second deserialisation is another allocation
-                let a2 = tracked(|| {
-                    let (pos, calls) = (Cell::new(0), Cell::new(0));
-                    Arc::<T>::deserialize(TapeDe { toks: &base, pos: &pos, calls: &calls, fail_at: 0 })
-                });
-                if let Ok(a2) = &a2 {
-                    if Arc::ptr_eq(&a, a2) || Arc::count(&a) != 1 {
-                        violation("serde:not-fresh", format!("two deserialisations of Arc<{}> share an allocation", T::NAME));
-                    }
-                }
-                st.fresh_blocks_checked += 1;
-                tracked(|| {
-                    drop(a2);
-                    drop(a);
-                    drop(u);
-                });
-            }
-            (None, Err(ea), Err(eu)) => {
-                let w = want_err.clone().unwrap();
-                if ea != w || eu != w {
-                    violation("serde:error-changed", format!("deserialising Arc/UniqueArc<{}> failed with {:?} / {:?}, the value's own deserialiser with {:?}", T::NAME, ea, eu, w));
-                }
-            }
-            (w, ra, ru) => {
-                violation(
-                    "serde:de-differs",
-                    format!("deserialising {} with a fault at call {}: value ok={}, Arc ok={}, UniqueArc ok={}", T::NAME, k, w.is_some(), ra.is_ok(), ru.is_ok()),
-                );
+            T::deserialize(TapeDe { toks: &base, pos: &pos, calls: &calls, fail_at: 0, log: &Cell::new(0), strict: true }).is_ok()
+        };
+        if ok_strict {
+            st.strict_cases += 1;
+            st.evaluations += 1;
+            de_compare::<T>(&base, 0, true, "typed-entry-points-only format", st);
+        }
+        // input that was written for another type: whatever the value's own deserialiser makes of
+        // it (usually a type error, sometimes a value), the handles must make the same of it
+        ctx("de wrong-input");
+        let mut r = Rng::new(seed ^ 0x5bd1_e995);
+        for _ in 0..2 {
+            let other: Vec<Tok> = match r.below(7) {
+                0 => ser_with(&u32::gen(&mut r), 0).0,
+                1 => ser_with(&String::gen(&mut r), 0).0,
+                2 => ser_with(&<(u8, String)>::gen(&mut r), 0).0,
+                3 => ser_with(&<Vec<Piece>>::gen(&mut r), 0).0,
+                4 => ser_with(&<Option<Piece>>::gen(&mut r), 0).0,
+                5 => ser_with(&Nested::gen(&mut r), 0).0,
+                _ => ser_with(&(), 0).0,
+            };
+            st.wrong_input_cases += 1;
+            st.evaluations += 1;
+            if de_compare::<T>(&other, 0, false, "input written for another type", st) {
+                st.wrong_input_rejected += 1;
             }
         }
-        if ledger::live_count() != blocks_before {
-            violation(
-                "leak:block",
-                format!("deserialising Arc/UniqueArc<{}> (fault at call {}) left {} block(s) behind", T::NAME, k, ledger::live_count() as i64 - blocks_before as i64),
-            );
-        }
-        if live_ids() != base_ids {
-            violation(
-                "leak:identity",
-                format!("deserialising Arc/UniqueArc<{}> (fault at call {}): {} piece(s) built by the partial value were not destroyed", T::NAME, k, live_ids() as i64 - base_ids as i64),
-            );
-        }
-        drop(want_val);
     }
     let rep = ledger::end_run();
     if rep.nleaks != 0 || rep.nwaf != 0 {
@@ -795,7 +929,7 @@ fn check_value_deserializers(seed: u64, st: &mut SerdeStats) {
 
 pub fn run_case(seed: u64, index: u64, only: Option<(bool, u32)>, st: &mut SerdeStats, ctx: &dyn Fn(&str)) {
     let s = mix(seed, index);
-    let which = (s % 8) as usize;
+    let which = (s % 10) as usize;
     match which {
         0 => check_type::<u32>(s, only, st, ctx),
         1 => check_type::<String>(s, only, st, ctx),
@@ -804,7 +938,9 @@ pub fn run_case(seed: u64, index: u64, only: Option<(bool, u32)>, st: &mut Serde
         4 => check_type::<Option<Piece>>(s, only, st, ctx),
         5 => check_type::<Nested>(s, only, st, ctx),
         6 => check_type::<[Piece; 9]>(s, only, st, ctx),
-        _ => check_type::<(Nested, String, u64)>(s, only, st, ctx),
+        7 => check_type::<(Nested, String, u64)>(s, only, st, ctx),
+        8 => check_type::<()>(s, only, st, ctx),
+        _ => check_type::<Tag>(s, only, st, ctx),
     }
     if only.is_none() && index % 8 == 0 {
         check_value_deserializers(s, st);
